@@ -81,6 +81,12 @@ def make_queries(rng, k, big=False):
         twin = gen.Net(ins, o, src.size_dict, "graph")
         if twin.inputs != src.inputs or twin.output != src.output:
             out.append(twin)
+    if rng.random() < 0.5:
+        # a RESIZED twin: the very same index structure with larger dimensions - a different
+        # contraction (other size_dict, other costs); the answer must carry THIS query's sizes
+        src = rng.choice(out)
+        f = rng.choice([2, 3])
+        out.append(gen.Net(src.inputs, src.output, {k_: v * f + rng.choice([0, 1]) for k_, v in src.size_dict.items()}, "graph+resized"))
     return out
 
 
@@ -128,7 +134,17 @@ def answer_ok(net, res):
             return f"returned a tree over {val.N} tensors for a query with {net.N}"
         if tuple(map(tuple, val.inputs)) != net.inputs or tuple(val.output) != net.output:
             return "returned a tree over another network's indices"
-        return ref.check_tree_struct(net.N, ct.children_of(val))
+        wrong = {k_: (val.size_dict.get(k_), v) for k_, v in net.size_dict.items() if val.size_dict.get(k_) != v}
+        if wrong:
+            k_ = sorted(wrong)[0]
+            return f"returned a tree with the index sizes of another query ({len(wrong)} differ, e.g. {k_!r}: tree says {wrong[k_][0]}, query says {wrong[k_][1]})"
+        msg = ref.check_tree_struct(net.N, ct.children_of(val))
+        if msg:
+            return msg
+        m = ref.Costs(net.inputs, net.output, net.size_dict, ct.children_of(val), removed=list(val.sliced_inds), nslices_of={ix: (1 if si.project is not None else net.size_dict[ix]) for ix, si in val.sliced_inds.items()})
+        if val.total_flops() != m.total_flops():
+            return f"returned tree reports {val.total_flops()} flops but its path costs {m.total_flops()} on the queried contraction"
+        return None
     msg = ref.check_linear_path(net.N, val)
     if msg:
         return f"returned path {tuple(val)!r:.120} is not a path of this {net.N}-tensor query: {msg}"
